@@ -84,12 +84,12 @@ func TestC17Registry(t *testing.T) {
 			view.Close()
 			b := bg.Block
 			if _, err := sim.E.Propose(b, r, r); err != nil {
-				rec.Discard("proposal-failed")
+				rec.Discard("proposal-failed:" + chain.Why(err))
 				return
 			}
 			out := sim.E.Execute(r, b, chain.PathProcess, nil)
 			if out.Err != nil || !out.Accepted {
-				rec.Discard("block-failed")
+				rec.Discard("block-failed:" + chain.Why(out.Err))
 				return
 			}
 			fp = append(fp, b.Hash)
@@ -117,7 +117,7 @@ func TestC17Registry(t *testing.T) {
 			}
 			sim.Logf("%s", line)
 			if err := sim.AfterCommit(b, out); err != nil {
-				rec.Discard("engine-contract")
+				rec.Discard("engine-contract:" + chain.Why(err))
 				return
 			}
 			// ---- invariants on the committed state
